@@ -28,43 +28,85 @@ from pysph.solver.utils import dump, load             # noqa: E402
 
 NPT = {'double': np.float64, 'float': np.float32, 'int': np.int32,
        'long': np.int64, 'unsigned int': np.uint32}
-SCALE = 1024          # solver times are k/1024: logged as the integer k
-BAD = -777777         # value that is not an integer / not representable
-MISSING = -888888     # no default recorded for a property
+MISSING = 'missing'   # no default recorded for a property
 
 
-def norm(v):
+def enc(v):
+    """Exact, type-independent text of a number: decimal digits for an
+    integral value of any C type (so 2**53+1 and UINT_MAX are themselves),
+    float.hex() of the double for anything else (a float32 converts exactly).
+    TLC compares these strings; its own integers are 32-bit."""
+    if isinstance(v, (bool, np.bool_)):
+        return str(int(v))
+    if isinstance(v, (int, np.integer)):
+        return str(int(v))
     try:
         f = float(v)
-        i = int(f)
-    except (TypeError, ValueError, OverflowError):
-        return BAD
-    if f != i:
-        return BAD
-    if i >= 2 ** 31:           # unsigned int default UINT_MAX -> -1
-        i -= 2 ** 32
-    if not (-2 ** 31 <= i < 2 ** 31):
-        return BAD
-    return i
+    except (TypeError, ValueError):
+        return 'bad:%r' % (v,)
+    if f != f:
+        return 'nan'
+    if f in (float('inf'), float('-inf')):
+        return 'inf' if f > 0 else '-inf'
+    if f == int(f):
+        if f == 0 and np.signbit(f):
+            return '-0.0'
+        return str(int(f))
+    return f.hex()
+
+
+def dec(s):
+    """A number from a description / from enc(): int, or 'f:<hex|inf|nan>'
+    / hex text for floats."""
+    if isinstance(s, (int, float)):
+        return s
+    if s.startswith('f:'):
+        s = s[2:]
+    if s in ('nan', 'inf', '-inf'):
+        return float(s)
+    if s == '-0.0':
+        return -0.0
+    if 'x' in s:
+        return float.fromhex(s)
+    return int(s)
+
+
+def small(v):
+    """tags stay TLC integers (ParticleArray.tla compares them with Local)"""
+    i = int(v)
+    return i if float(v) == i and abs(i) < 2 ** 31 else -777777
 
 
 def proj(pa):
-    """Abstract state of a real ParticleArray (as in c06_driver.proj, plus
-    the C type of the constants)."""
+    """Abstract state of a real ParticleArray: as c06_driver.proj, but every
+    value except the tags is the exact text enc(v); plus the C type of the
+    constants."""
     d = dict(type={}, stride={}, dflt={}, len={}, data={}, consts={},
              ctype={}, outs=[], nreal=int(pa.num_real_particles))
     for p, arr in pa.properties.items():
+        e = small if p == 'tag' else enc
         d['type'][p] = arr.get_c_type()
         d['stride'][p] = int(pa.stride.get(p, 1))
-        d['dflt'][p] = norm(pa.default_values[p]) \
-            if p in pa.default_values else MISSING
+        d['dflt'][p] = e(pa.default_values[p]) \
+            if p in pa.default_values else (-888888 if p == 'tag' else MISSING)
         d['len'][p] = int(arr.length)
-        d['data'][p] = [norm(v) for v in arr.get_npy_array()]
+        d['data'][p] = [e(v) for v in arr.get_npy_array()]
     for c, arr in pa.constants.items():
-        d['consts'][c] = [norm(v) for v in arr.get_npy_array()]
+        d['consts'][c] = [enc(v) for v in arr.get_npy_array()]
         d['ctype'][c] = arr.get_c_type()
     d['outs'] = [str(x) for x in pa.output_property_arrays]
     return d
+
+
+def last_row(pa):
+    """The values of the last particle, per property (after extend(1) on a
+    loaded array: what a particle appended to it gets)."""
+    out = {}
+    for p, arr in pa.properties.items():
+        st = int(pa.stride.get(p, 1))
+        e = small if p == 'tag' else enc
+        out[p] = [e(v) for v in arr.get_npy_array()[-st:]]
+    return out
 
 
 def build(desc):
@@ -72,38 +114,107 @@ def build(desc):
     props = {}
     for p in desc['props']:
         kw = dict(type=p['type'], stride=p['stride'],
-                  data=np.array(p['data'], dtype=NPT[p['type']]))
+                  data=np.array([dec(v) for v in p['data']],
+                                dtype=NPT[p['type']]))
         if p['default'] is not None:
-            kw['default'] = p['default']
+            kw['default'] = dec(p['default'])
         props[p['name']] = kw
     if desc['n'] > 0 or desc['tags']:
         props['tag'] = dict(data=np.array(desc['tags'], dtype=np.int32),
                             type='int')
-    consts = {c: np.array(v['data'], dtype=v['dtype'])
+    consts = {c: np.array([dec(x) for x in v['data']], dtype=v['dtype'])
               for c, v in desc['consts'].items()}
-    pa = ParticleArray(name=desc['name'], constants=consts, **props)
+    pa = ParticleArray(name=desc['name'], constants=consts,
+                       default_particle_tag=int(desc.get('default_tag', 0)),
+                       **props)
     for p in desc.get('late', []):
-        # a property added after construction without data: default-filled
+        # a property added after construction without data: default-filled;
+        # for pid / gid (they exist already) this sets their default
         pa.add_property(p['name'], type=p['type'], stride=p['stride'],
-                        default=p['default'])
+                        default=dec(p['default']))
+    for name, v in desc.get('set_defaults', {}).items():
+        # the default in force, set without going through add_property
+        pa.default_values[name] = dec(v)
+    if desc.get('exact'):
+        # the state to be dumped must hold exactly the described values,
+        # whatever conversions the constructor applies: write them into the
+        # property arrays (the tags of such arrays are generated aligned, so
+        # the constructor did not permute the rows)
+        for p in desc['props']:
+            pa.properties[p['name']].get_npy_array()[:] = np.array(
+                [dec(v) for v in p['data']], dtype=NPT[p['type']])
     pa.set_output_arrays(list(desc['outs']))
     return pa
 
 
+# ---- solver data: typed descriptions -> Python objects -> exact text ------
+def sd_obj(d):
+    k = d['k']
+    if k == 'int':
+        return int(d['v'])
+    if k == 'float':
+        return dec(d['v'])
+    if k == 'bool':
+        return bool(d['v'])
+    if k == 'str':
+        return d['v']
+    if k == 'bytes':
+        return bytes.fromhex(d['v'])
+    if k == 'none':
+        return None
+    if k == 'np':
+        return np.dtype(d['dtype']).type(dec(d['v']))
+    if k == 'ndarray':
+        return np.array([dec(x) for x in d['v']], dtype=d['dtype'])
+    if k == 'list':
+        return [sd_obj(x) for x in d['v']]
+    if k == 'tuple':
+        return tuple(sd_obj(x) for x in d['v'])
+    if k == 'dict':
+        return {sd_obj(a): sd_obj(b) for a, b in d['v']}
+    raise ValueError(k)
+
+
+def sd_enc(v):
+    """Exact text of a solver-data value.  Numbers by value (hdf5 returns
+    numpy scalars), sequences by their elements (hdf5 returns arrays for
+    lists), but str / bytes / bool / None and dictionary keys keep their
+    kind."""
+    if v is None:
+        return 'none'
+    if isinstance(v, (bool, np.bool_)):
+        return 't:%d' % int(v)
+    if isinstance(v, (bytes, np.bytes_)):
+        return 'b:' + bytes(v).hex()
+    if isinstance(v, str):
+        return 's:' + v
+    if isinstance(v, dict):
+        return '{' + ';'.join(sorted('%s=>%s' % (sd_enc(a), sd_enc(b))
+                                     for a, b in v.items())) + '}'
+    if isinstance(v, (list, tuple)):
+        return '[' + ','.join(sd_enc(x) for x in v) + ']'
+    if isinstance(v, np.ndarray):
+        return '[' + ','.join(sd_enc(x) for x in v.ravel().tolist()) + ']' \
+            if v.dtype == object else \
+            '[' + ','.join(sd_enc(x) for x in v.ravel()) + ']'
+    if isinstance(v, (int, float, np.integer, np.floating)):
+        return 'n:' + enc(v)
+    return 'bad:%s:%r' % (type(v).__name__, v)
+
+
 def sd_real(sd):
-    return dict(t=sd['t'] / float(SCALE), dt=sd['dt'] / float(SCALE),
-                count=int(sd['count']))
+    return {k: sd_obj(v) for k, v in sd.items()}
 
 
 def sd_proj(sd):
-    out = {}
-    for k, v in sd.items():
-        k = k.decode() if isinstance(k, bytes) else str(k)
-        if k in ('t', 'dt'):
-            out[k] = norm(float(v) * SCALE)
-        else:
-            out[k] = norm(v)
-    return out
+    return {sd_enc(k): sd_enc(v) for k, v in sd.items()}
+
+
+def pick_sd(case, fmt, variant):
+    """hdf5 attributes (and files written by Python 2: bytes keys) hold
+    numbers, bools, str and homogeneous sequences; npz holds anything"""
+    flat = fmt == 'hdf5' or variant == 'bytes-keys'
+    return case['sd_flat'] if flat else case['sd_rich']
 
 
 def stored_v1(a, detailed, only_real):
@@ -114,9 +225,7 @@ def stored_v1(a, detailed, only_real):
     n = a['nreal'] if only_real else a['len']['tag']
     out = {}
     for p in cols:
-        vals = a['data'][p][:n * a['stride'][p]]
-        if a['type'][p] == 'unsigned int':      # undo the int32 normalisation
-            vals = [v & 0xFFFFFFFF for v in vals]
+        vals = [dec(v) for v in a['data'][p][:n * a['stride'][p]]]
         out[p] = np.array(vals, dtype=NPT[a['type'][p]])
     return out
 
@@ -128,7 +237,7 @@ def write_v1(fname, names, arrs, sd, detailed, only_real, bytes_keys):
     for nm in names:
         arrays[key(nm)] = {key(p): v for p, v in
                            stored_v1(arrs[nm], detailed, only_real).items()}
-    sdata = {key(k): v for k, v in sd_real(sd).items()}
+    sdata = {key(k): v for k, v in sd.items()}
     np.savez(fname, version=1, arrays=arrays, solver_data=sdata)
 
 
@@ -145,21 +254,23 @@ def run_case(case, out, jr, scratch, first_combo=0):
         jr.flush()
         rec = dict(id=cid, fmt=fmt, compress=bool(compress),
                    detailed=bool(detailed), only_real=bool(only_real),
-                   variant=variant, names=[], arrs={}, sd=dict(case['sd']),
-                   lnames=[], larrs={}, lsd={}, error='')
+                   variant=variant, names=[], arrs={}, sd={},
+                   lnames=[], larrs={}, lext={}, lsd={}, error='')
         ext = 'hdf5' if fmt == 'hdf5' else 'npz'
         fname = os.path.join(scratch, 'c11_%d_%d.%s' % (os.getpid(), ci, ext))
         stage = 'build'
         try:
             pas = [build(d) for d in case['arrays']]
+            sdata = sd_real(pick_sd(case, fmt, variant))
+            rec['sd'] = sd_proj(sdata)
             rec['names'] = [pa.name for pa in pas]
             rec['arrs'] = {pa.name: proj(pa) for pa in pas}
             stage = 'write_v1' if fmt == 'npz1' else 'dump'
             if fmt == 'npz1':
-                write_v1(fname, rec['names'], rec['arrs'], case['sd'],
+                write_v1(fname, rec['names'], rec['arrs'], sdata,
                          detailed, only_real, variant == 'bytes-keys')
             else:
-                dump(fname, pas, sd_real(case['sd']),
+                dump(fname, pas, sdata,
                      detailed_output=bool(detailed),
                      only_real=bool(only_real), mpi_comm=None,
                      compress=bool(compress))
@@ -173,6 +284,10 @@ def run_case(case, out, jr, scratch, first_combo=0):
             rec['larrs'] = {str(k): proj(v)
                             for k, v in data['arrays'].items()}
             rec['lsd'] = sd_proj(data['solver_data'])
+            stage = 'extend'
+            for k, v in data['arrays'].items():
+                v.extend(1)
+                rec['lext'][str(k)] = last_row(v)
         except Exception as ex:
             rec['error'] = '%s: %s: %s' % (stage, type(ex).__name__, ex)
             if stage in ('build', 'write_v1', 'project'):
@@ -269,7 +384,7 @@ def run_run(case, out, root):
                        magic=magic(os.path.join(root, f)))
             try:
                 data = load(os.path.join(root, f))
-                ent['count'] = norm(data['solver_data']['count'])
+                ent['count'] = small(data['solver_data']['count'])
                 ent['ok'] = True
             except Exception:
                 pass
@@ -286,7 +401,7 @@ def run_run(case, out, root):
                 data = load_and_concatenate(
                     case['concat_prefix'], nprocs=1, directory=d,
                     count=None if c < 0 else c)
-                ent['got'] = norm(data['solver_data']['count'])
+                ent['got'] = small(data['solver_data']['count'])
                 ent['ok'] = True
             except Exception:
                 pass
